@@ -27,6 +27,13 @@ def jobs(tier):
             if nm == "size":
                 base = min(hi, 2)
             shrink[nm] = (base, min(hi, base + (0 if q else 1)))
+        if t in (("t_macro_sub",) if q else ("t_macro_sub", "t_loop_sub")):
+            # the same over a custom gate set that does not define the bounding gates prepare_all / measure_all
+            for op1 in ((2, 5) if q else range(n - 2)):
+                out.extend(tjobs(f"{H}:c11_history", t, tier, shrink=shrink, fixed={"native": 2, "op1": op1, "op3": -1},
+                                 extra_params=[("op2", "int")], extra_pre=[f"0 <= op2 < {n - 2}"], functions=FUNCS, timeout=300 if q else 1500,
+                                 name=f"c11_history_nobound_{t}_{OPS[op1]}", base="c11_history",
+                                 note=f"{t} over a gate set without prepare_all/measure_all: {OPS[op1]} then any second operation (emulation excluded) on the same circuit object"))
         for op1 in range(n):
             out.extend(tjobs(f"{H}:c11_history", t, tier, shrink=shrink, fixed={"native": True, "op1": op1, "op3": -1},
                              extra_params=[("op2", "int")], extra_pre=[f"0 <= op2 < {n}"], functions=FUNCS, timeout=300 if q else 1500,
